@@ -24,7 +24,8 @@
 (*                 enqueue a clone into ring id ([fa etail][ld head][cas    *)
 (*                 tail]); len_after <= 2 -> wake_stream(id)                *)
 (*   poll(s):  dequeue from ring s ([fa dhead][ld tail]([cas head] |        *)
-(*             [cas dhead])); nothing -> [y keep.read]; FALSE -> end;       *)
+(*             [cas dhead])); nothing -> [y keep.read]; FALSE -> dequeue    *)
+(*             once more, nothing again -> end;                             *)
 (*             TRUE -> [y waker.peek] registered -> Pending; else [cas      *)
 (*             wlock] insert [st wlock] self-wake, Pending                   *)
 (*   create:   [fa created][fa count][cas vguard][y][y: pop id][st vguard]  *)
@@ -249,8 +250,10 @@ DeqRecedeOk(p) ==  \* nothing there.  poll: on to keep_stream_running;  drop: th
     /\ LET r == reg[p].sid IN
        /\ rdh[r] = Add(reg[p].slot, 1)
        /\ rdh' = [rdh EXCEPT ![r] = reg[p].slot]
-    /\ pc' = [pc EXCEPT ![p] = IF reg[p].op = "drop" THEN "P1" ELSE "K1"]
-    /\ UNCHANGED <<rh, rt, re, rbuf, sm, wk, reg, gh>>
+    /\ IF reg[p].op = "poll2"
+       THEN pc' = [pc EXCEPT ![p] = "cret"] /\ reg' = [reg EXCEPT ![p].res = "end"]          \* nothing again after the end signal: end of stream
+       ELSE pc' = [pc EXCEPT ![p] = IF reg[p].op = "drop" THEN "P1" ELSE "K1"] /\ UNCHANGED reg
+    /\ UNCHANGED <<rh, rt, re, rbuf, sm, wk, gh>>
 DeqRecedeFail(p) ==
     /\ pc[p] = "D3"
     /\ rdh[reg[p].sid] # Add(reg[p].slot, 1)
@@ -268,11 +271,11 @@ DeqRelease(p) ==   \* head CAS(slot -> slot+1).  poll: the item is the result;  
     /\ UNCHANGED <<rt, re, rdh, rbuf, sm, wk, gh>>
 
 \* the rest of poll_next after an empty consume
-KeepRead(p) ==     \* [y sm.keep.read]
+KeepRead(p) ==     \* [y sm.keep.read]; told to end -> consume once more before ending (an event may have come in since the empty consume)
     /\ pc[p] = "K1"
     /\ IF keep[reg[p].sid]
        THEN pc' = [pc EXCEPT ![p] = "R1"] /\ UNCHANGED reg
-       ELSE pc' = [pc EXCEPT ![p] = "cret"] /\ reg' = [reg EXCEPT ![p].res = "end"]
+       ELSE pc' = [pc EXCEPT ![p] = "D1"] /\ reg' = [reg EXCEPT ![p].op = "poll2"]
     /\ UNCHANGED <<ring, sm, wk, gh>>
 WakerPeek(p) ==    \* [y sm.waker.peek] this task's waker is already there (will_wake) -> Pending; none or another task's -> (re)register
     /\ pc[p] = "R1"
@@ -427,7 +430,7 @@ ChanRet(p) ==
     /\ pc' = [pc EXCEPT ![p] = "idle"]
     /\ LET r == reg[p] IN
        /\ done' = IF r.op = "send" THEN done \cup {r.v} ELSE done
-       /\ got'  = IF r.op = "poll" /\ r.res = "item" THEN [got EXCEPT ![r.sid] = Append(@, r.rv)]
+       /\ got'  = IF r.op \in {"poll", "poll2"} /\ r.res = "item" THEN [got EXCEPT ![r.sid] = Append(@, r.rv)]
                   ELSE IF r.op = "create" THEN [got EXCEPT ![r.sid] = <<>>]
                   ELSE got
        /\ life' = IF r.op = "create" THEN [life EXCEPT ![r.sid] = "live"]
